@@ -48,7 +48,8 @@ plan("C15", "exploration",
 
 HIST_RULE = ("one case = one seeded history of 5-60 conflict-seeking {kind} requests (advance / same-{unit} / lower / boundary values incl. >= 2^63; "
              "by name, by key, both; {extra}) over 1-4 keys, processed sequentially or in concurrent phases of 2-5 requests under the seeded scheduler, "
-             "with clean restarts and crash restarts (directory image) in between; distinct = distinct history; non-trivial = at least two signatures were released. "
+             "with clean restarts and crash restarts (directory image) in between (later incarnations with periodic pruning in half of the histories, their housekeeping goroutine a thread of the schedule); "
+             "sequential histories now and then try to start a second instance on the same directory, and (attestations) send a batch carrying an exact-capacity short-domain entry whose panic is the death of the daemon; distinct = distinct history; non-trivial = at least two signatures were released. "
              "Oracle: every released signature is entered in a per-key ledger and compared pairwise with all earlier ones{strict}.")
 q, t = tiers(250, 60, 20000, 1200)
 q["layers"] = [dict(runs=250, budget_s=60, params="")] * 15 + [dict(runs=25, budget_s=60, params="mode=free")]
@@ -68,7 +69,7 @@ t["require_probes"] = q["require_probes"] + ["crash_torn", "crash_after-write", 
 plan("C03", "exploration",
      "one case = one seeded run: 1-4 phases of 1-5 concurrent conflict-seeking attestation/proposal requests (single and batched) under the seeded scheduler, "
      "with 1-3 crashes injected at drawn yield points (before a store write, torn inside it, right after it, between approval and Sign, waiting for a lock) "
-     "and restart on the surviving directory image, plus clean restarts; distinct = distinct (history, schedule, crash placement) signature; non-trivial = "
+     "and restart on the surviving directory image (periodic pruning drawn; goroutines the new incarnation starts for itself are adopted as threads of the schedule), plus clean restarts; distinct = distinct (history, schedule, crash placement) signature; non-trivial = "
      "at least one crash happened or one signature was released. Oracles: ledger across incarnations (no conflicting pair ever released), export after every "
      "restart covers every released signature, at the instant Sign is invoked the live store and (sampled) a fresh process opening the directory already "
      "cover the duty, the directory as copied at the instant a storage call returns already holds what was acknowledged; layers 2 and 3 add real SIGKILLs at every storage point (up to three incarnations in a row on one directory, periodic pruning drawn) and power-loss images from a syscall trace; "
@@ -119,7 +120,7 @@ plan("C06", "fault_enumeration",
      "really sealed account, rules UNKNOWN/FAILED/DENIED, short and empty result list, store read error, store write error, wrong-length record, undecodable record, store closed, "
      "Sign error, 31- and 33-byte domain, 31-byte data root) x request kind {attest, attest-batch, propose, generic, multisign} x batch size {1,2,3,5,17} x position; "
      "(b) seeded multi-fault sequences: 2-6 concurrent requests with store/rules/Sign faults injected at yield points at a drawn rate, pre-drawn lookup/permission/unlock faults, "
-     "and the store closed under load. distinct = distinct matrix case or distinct faulty schedule; non-trivial = a fault actually fired on a request's path. "
+     "and the store closed under load (the directory is reopened afterwards: whatever was signed must have its record). distinct = distinct matrix case or distinct faulty schedule; non-trivial = a fault actually fired on a request's path. "
      "Oracle: signature iff SUCCEEDED at every position (handler level); every position whose path met the fault carries no signature; no panic; ledger and signature validity still hold.",
      q, t, crash_is_violation=True)
 
@@ -131,8 +132,8 @@ q["require_probes"] = t["require_probes"] = ["edge_exit_signed_for_listed_source
 plan("C05", "exploration",
      "one case = one (endpoint, domain class, source listed?, admin list size) combination; a seeded run draws an administrator list (empty / one / many, incl. look-alike strings), "
      "4-15 requests over {generic, multisign, attestation, attestation batch, proposal} with a domain per position from {attester, proposer, voluntary-exit, other spec types, "
-     "near misses of the slashable types, random prefix} x random 28-byte suffix and a source address (absent / listed / unlisted / look-alike); a quarter of the runs make the rules "
-     "answer UNKNOWN/FAILED for some keys. distinct = distinct combination actually exercised; non-trivial = all. Oracle: no signature under attester/proposer via generic endpoints, "
+     "near misses of the slashable types, random prefix, an (object root, slashable domain) pair cut into data and domain at another offset} x random 28-byte suffix and a source address (absent / listed / unlisted / look-alike); a quarter of the runs make the rules "
+     "answer UNKNOWN/FAILED for some keys. distinct = distinct combination actually exercised; non-trivial = all. Oracle: no signature under attester/proposer via generic endpoints (nor one that verifies under them when the 64 signed bytes are read as root then domain), "
      "none under any other type via the attestation/proposal endpoints (and the slashing database is unchanged by such a refusal), exit only for a listed source. "
      "A sixteenth worker enumerates a 48-case table over real gRPC/TLS: administrator list {none, 127.0.0.2, 127.0.0.1+127.0.0.3} x the loopback address the client binds its connection to x "
      "forwarding headers naming a listed address or none x {Sign, Multisign}: the source is what the TCP connection says.",
@@ -148,7 +149,7 @@ t["require_probes"] = q["require_probes"]
 plan("C12", "exploration",
      "one case = one seeded generation in a cluster of n(+0..2 spare) real instances: (n,t) walks the complete table 1<=n<=7, 0<=t<=n+1 (42 pairs, every t outside n/2<t<=n must be refused "
      "before any message is sent); participant id sets {1..n, large random, near 2^64, sparse}; participant order, initiating instance (incl. a non-participant) and the order in which "
-     "the parallel commit replies are released are drawn; a quarter of the valid runs tamper one commit reply (public key / confirmation signature / empty fields). distinct = distinct "
+     "the parallel commit replies are released are drawn; a quarter of the valid runs tamper one commit reply (public key / confirmation signature / empty fields), and half of those retry under the same name through an instance that holds nothing (a retry that succeeds is checked like any success). distinct = distinct "
      "(n, t, id-set class, initiator role, tamper) tuple; non-trivial = all. Oracle on success: every participant's wallet store holds the account with identical composite key (= the one "
      "returned), verification vector, threshold and participant map; share key = vector evaluated at the participant's id; every t-subset of partial signatures obtained through the real "
      "signer recovers a signature valid under the composite key and no (t-1)-subset does; listed and signing on every participant immediately and after a restart.",
@@ -204,7 +205,8 @@ plan("C14", "exploration",
      "one case = one seeded run: a real DKG creates a distributed account over n in [2,5] (thorough: 7) instances with drawn t in (n/2, n] and id set; an adversarial client then sends two "
      "conflicting duties (same target/different data, surround either way, two blocks at one slot) by account name or share key, through single and batch endpoints, routed by a drawn "
      "strategy (complementary halves, t-sized overlapping sets, both to every instance, drawn subsets with repeats), all requests of a phase concurrent under the seeded scheduler; half "
-     "the runs crash- or clean-restart instances and then retry both duties everywhere. distinct = distinct (n,t,conflict,strategy,restarts,schedule); non-trivial = at least one partial "
+     "the runs crash- or clean-restart instances and then retry both duties everywhere; a decoy account (with or without history) rides in some batches; a quarter of the attestation runs first send one duty in a batch "
+     "with an exact-capacity short-domain entry (a panic is the death of that daemon: image restart). distinct = distinct (n,t,conflict,strategy,restarts,schedule); non-trivial = at least one partial "
      "signature was released. Oracle: BLS-valid partial signatures are counted per duty (one per instance): never both >= t; a duty that reaches t recovers a valid composite signature.",
      q, t, real_vs_stub=REAL_W2)
 
